@@ -22,7 +22,7 @@ def check(run, replay):
                     cfg_text=MC.format(parents='{"a1","a2"}', children='{"b1","b2"}', rating=2, steps=7 if thorough else 6, oto=oto, body="INVARIANTS BothSidesAgree OneHolder"),
                     label="MC_Relations(OneToOne=%s)" % oto)
             out = os.path.join(run.tmp, "rel-%s.ndjson" % oto)
-            run.tlc("Relations_gen.tla", "gen_%s.cfg" % oto, mode="simulate", workers=1, sim="num=%d" % (200 if thorough else 15), extra=["-depth", "12"], timeout=900,
+            run.tlc("Relations_gen.tla", "gen_%s.cfg" % oto, mode="simulate", workers=1, sim="num=%d" % (400 if thorough else 50), extra=["-depth", "12"], timeout=900,
                     env={"VERIF_OUT": out},
                     cfg_text=MC.format(parents='{"a1","a2","a3"}', children='{"b1","b2","b3","b4"}', rating=3, steps=12, oto=oto, body="ACTION_CONSTRAINT ExportLeaves"),
                     label="GEN_Relations(OneToOne=%s)" % oto)
